@@ -20,7 +20,7 @@ import ast
 
 from ..engine.model import AnalysisError, src, walk_own
 from ..engine.flow import Flow
-from ..engine.inline import Inliner, cmp_parts
+from ..engine.inline import Inliner, cmp_parts, norm_text
 from ..engine.typestate import EventDomain
 from .common_ops import check_dunders, single_assignments, unwrap
 
@@ -69,6 +69,24 @@ class Checker:
             if len(fi.params) < 3:
                 raise AnalysisError('%s.changeFrame lost its (new_frame, old_frame) parameters' % ci.name)
             new_p, old_p = fi.params[1], fi.params[2]
+            # decided first by normal-form equality with the reference frame change of the class (any arrangement of temporaries,
+            # guard clauses, np.dot / np.transpose spellings); the structural rules below only speak when that fails
+            from ..engine import tv as _tv
+            args = (new_p, old_p, old_p, old_p, old_p, new_p, new_p,
+                    'globalToLocal(%s, %s).adjoint()%s' % ((new_p, old_p, '') if not transposed else (old_p, new_p, '.T')))
+            eq, _why = _tv.fi_matches_spec(self.model, fi, """
+                def changeFrame(self, %s, %s=None):
+                    if %s is None:
+                        %s = self.frame_applied
+                    if %s == %s:
+                        return self
+                    self._setFrame(%s)
+                    self.data = %s @ self.data
+                    return self
+                """ % args)
+            if eq:
+                rep.ob('R12.2', fi, '%s.changeFrame == reference frame change' % ci.name, True)
+                continue
             role = {'new': new_p, 'old': old_p}
             assigns = single_assignments(fi.node)
             stores = [n for n in walk_own(fi.node) if isinstance(n, ast.Assign) and any(
@@ -192,53 +210,61 @@ class Checker:
         init = self.wrench.methods.get('__init__')
         if init is None:
             raise AnalysisError('anchor vanished: Wrench.__init__')
-        assigns = single_assignments(init.node)
         force_p, pos_p = init.params[1], init.params[2]
+        # the constructor with its private helpers inlined, explored path by path for a 3-element, non-Screw, non-None force:
+        # the payload handed to Screw.__init__ on those paths is the force-at-a-point wrench
+        from ..engine import peval as _pe
+        from ..engine.paths import paths_of
+        flat = _pe.flatten({n_: f_.node for n_, f_ in self.wrench.methods.items()}, init.node, depth=2, impure=True)
+        ps = paths_of(flat, init.params, consts={'len(%s)' % force_p: 3, 'isinstance(%s,Screw)' % force_p: False, '%sisNone' % force_p: False,
+                                                  '%s==None' % force_p: False})
         found = 0
-        for n in ast.walk(init.node):
-            if isinstance(n, ast.If) and 'len(%s) == 3' % force_p in src(n.test):
-                calls = [c for s in n.body for c in ast.walk(s) if isinstance(c, ast.Call) and isinstance(c.func, ast.Attribute)
-                         and c.func.attr == '__init__']
-                for c in calls:
-                    found += 1
-                    arr = c.args[0] if c.args else None
-                    elems = None
-                    for sub in ast.walk(arr) if arr is not None else []:
-                        if isinstance(sub, ast.List) and len(sub.elts) == 6:
-                            elems = sub.elts
-                            break
-                    if elems is None:
-                        rep.ob('R12.3', init, src(c)[:80], False, '6-element wrench literal not found in the 3-vector branch', line=c.lineno)
-                        continue
-                    ok = True
-                    msgs = []
-                    mom_src = set()
-                    for k in range(3):
-                        e = elems[k]
-                        if isinstance(e, ast.Subscript) and isinstance(e.slice, ast.Constant) and e.slice.value == k:
-                            mom_src.add(src(e.value))
-                        else:
-                            ok = False
-                            msgs.append('slot %d is %s' % (k, src(e)))
-                        f = elems[3 + k]
-                        if not (isinstance(f, ast.Subscript) and src(f.value) == force_p and isinstance(f.slice, ast.Constant) and f.slice.value == k):
-                            ok = False
-                            msgs.append('slot %d is %s, expected %s[%d]' % (3 + k, src(f), force_p, k))
-                    if ok and len(mom_src) == 1:
-                        m = _resolve(ast.parse(mom_src.pop(), mode='eval').body, assigns)
-                        if isinstance(m, ast.Call) and isinstance(m.func, ast.Attribute) and m.func.attr == 'cross' and len(m.args) == 2:
-                            a0, a1 = m.args
-                            il = Inliner(init)
-                            if not (pos_p in il.text(a0) and force_p not in il.text(a0) and il.text(a1) == force_p):
-                                ok = False
-                                msgs.append('moment is cross(%s, %s); must be cross(position, force)' % (src(a0), src(a1)))
-                        else:
-                            ok = False
-                            msgs.append('moment is not a cross product: %s' % src(m))
-                    elif ok:
+        for pth in ps:
+            for ev in pth.calls(lambda t: t.endswith('.__init__')):
+                if not ev[2]:
+                    continue
+                found += 1
+                try:
+                    arr = ast.parse(ev[2][0], mode='eval').body
+                except SyntaxError:
+                    arr = None
+                elems = None
+                for sub in ast.walk(arr) if arr is not None else []:
+                    if isinstance(sub, ast.List) and len(sub.elts) == 6:
+                        elems = sub.elts
+                        break
+                if elems is None:
+                    rep.ob('R12.3', init, 'payload of a 3-vector force', False, '6-element wrench literal not found on the 3-vector path: %s' % ev[2][0][:80], line=ev[3])
+                    continue
+                ok = True
+                msgs = []
+                mom_src = set()
+                for k in range(3):
+                    e = elems[k]
+                    if isinstance(e, ast.Subscript) and isinstance(e.slice, ast.Constant) and e.slice.value == k:
+                        mom_src.add(norm_text(e.value))
+                    else:
                         ok = False
-                        msgs.append('moment slots come from different vectors')
-                    rep.ob('R12.3', init, 'force-at-point wrench literal', ok, '; '.join(msgs) or 'ok', line=c.lineno)
+                        msgs.append('slot %d is %s' % (k, src(e)))
+                    f = elems[3 + k]
+                    if not (isinstance(f, ast.Subscript) and src(f.value) == force_p and isinstance(f.slice, ast.Constant) and f.slice.value == k):
+                        ok = False
+                        msgs.append('slot %d is %s, expected %s[%d]' % (3 + k, src(f), force_p, k))
+                if ok and len(mom_src) == 1:
+                    m = ast.parse(mom_src.pop(), mode='eval').body
+                    if isinstance(m, ast.Call) and isinstance(m.func, ast.Attribute) and m.func.attr == 'cross' and len(m.args) == 2:
+                        a0, a1 = norm_text(m.args[0]), norm_text(m.args[1])
+                        n0 = {x.id for x in ast.walk(m.args[0]) if isinstance(x, ast.Name)} | {x.attr for x in ast.walk(m.args[0]) if isinstance(x, ast.Attribute)}
+                        if not (pos_p in n0 and force_p not in n0 and a1 == force_p):
+                            ok = False
+                            msgs.append('moment is cross(%s, %s); must be cross(position, force)' % (a0, a1))
+                    else:
+                        ok = False
+                        msgs.append('moment is not a cross product: %s' % src(m))
+                elif ok:
+                    ok = False
+                    msgs.append('moment slots come from different vectors')
+                rep.ob('R12.3', init, 'force-at-point wrench literal', ok, '; '.join(msgs) or 'ok', line=ev[3])
         if not found:
             raise AnalysisError('R12.3: the 3-vector branch of Wrench.__init__ was not recognised')
         for meth, lo, hi in (('getMoment', 0, 3), ('getForce', 3, 6)):
@@ -274,49 +300,66 @@ class Checker:
         rep = self.rep
         rep.rule('R12.4', 'mixed-frame operations re-express a COPY of the right operand in the LEFT operand\'s frame')
         n = 0
+        from ..engine import peval as _pe
+        from ..engine.paths import paths_of
+        meths = {n_: f_.node for n_, f_ in self.screw.methods.items()}
         for meth in ('__add__', '__sub__', 'cross', 'dot'):
             fi = self.screw.methods.get(meth)
             if fi is None:
                 continue
             other = fi.params[1]
-            for c in [x for x in walk_own(fi.node) if isinstance(x, ast.Call) and isinstance(x.func, ast.Attribute) and x.func.attr == 'changeFrame']:
-                n += 1
-                recv = c.func.value
-                is_copy = isinstance(recv, ast.Call) and isinstance(recv.func, ast.Attribute) and recv.func.attr == 'copy' \
-                    and src(recv.func.value) == other
-                tgt_ok = bool(c.args) and src(c.args[0]) == 'self.frame_applied'
-                rep.ob('R12.4', fi, src(c), is_copy and tgt_ok,
-                       ('changeFrame is applied to %s itself (operand mutated)' % src(recv) if not is_copy else
-                        'right operand converted into %s, not into the left operand\'s frame' % (src(c.args[0]) if c.args else '?')),
-                       line=c.lineno)
-            # in the different-frame branch the right operand's payload is only read through the object changeFrame returned
-            for ifn in [x for x in walk_own(fi.node) if isinstance(x, ast.If)]:
-                t_, neg_ = ifn.test, False
-                while isinstance(t_, ast.UnaryOp) and isinstance(t_.op, ast.Not):
-                    t_, neg_ = t_.operand, not neg_
-                cp = cmp_parts(t_, left=lambda t: t.endswith('.frame_applied'))
-                if cp is None or cp[1] not in ('==', '!=') or not cp[2].endswith('.frame_applied'):
+            # every control path of the operator (private helpers inlined) for a Screw right operand: which object's payload is
+            # combined with self.data, under which frame facts, and which frame labels the result
+            flat = _pe.flatten(meths, fi.node, depth=2, stop=('changeFrame', 'copy'), impure=True)
+            ps = paths_of(flat, fi.params, consts={'isinstance(%s,Screw)' % other: True})
+            eq_texts = ('%s.frame_applied==self.frame_applied' % other, 'self.frame_applied==%s.frame_applied' % other)
+            ne_texts = ('%s.frame_applied!=self.frame_applied' % other, 'self.frame_applied!=%s.frame_applied' % other)
+            raw_unguarded, mutated, wrong_target, strange, labels, reconciled, guarded = [], [], [], [], [], 0, 0
+            for pth in ps:
+                if pth.ret is None or pth.ret == '<none>':
                     continue
-                same_in_body = (cp[1] == '==') != neg_
-                diff_branch = ifn.orelse if same_in_body else ifn.body
-                raw = [x for st_ in diff_branch for x in ast.walk(st_) if isinstance(x, ast.Attribute) and x.attr == 'data'
-                       and isinstance(x.value, ast.Name) and x.value.id == other]
-                n += 1
-                rep.ob('R12.4', fi, '%s: operands in different frames are reconciled through changeFrame' % meth, not raw,
-                       'in the different-frame branch the payload `%s.data` is combined directly (line %d): the frames are reconciled inline with one '
-                       'fixed rule, but Wrench inherits %s and changes frame with the dual rule (Ad^T of the inverse transition), so wrenches in '
-                       'translated frames get wrong values' % (other, raw[0].lineno if raw else 0, meth), line=ifn.lineno)
-            # the mixed-frame branch exists: a frame comparison guards it
-            has_cmp = any(isinstance(x, ast.Compare) and 'frame_applied' in src(x) for x in walk_own(fi.node))
-            rep.ob('R12.4', fi, 'frame comparison before combining payloads', has_cmp,
-                   'payloads of screws in different frames are combined without frame reconciliation')
-            # results carry the left operand's frame
-            for r in [x for x in walk_own(fi.node) if isinstance(x, ast.Return) and isinstance(x.value, ast.Call)]:
-                f = r.value.func
-                if isinstance(f, ast.Name) and f.id in ('Screw', 'Wrench') and len(r.value.args) >= 2:
-                    fr = Inliner(fi).text(r.value.args[1])
-                    rep.ob('R12.4', fi, 'result frame of ' + src(r.value)[:60], fr in ('self.frame_applied', 'self.frame_applied.copy()'),
-                           'result is labelled with frame %s, not the left operand\'s' % fr, line=r.lineno)
+                try:
+                    rt = ast.parse(pth.ret, mode='eval').body
+                except SyntaxError:
+                    continue
+                same_frames = any(pth.facts.get(t) is True for t in eq_texts) or any(pth.facts.get(t) is False for t in ne_texts)
+                for x in ast.walk(rt):
+                    if not (isinstance(x, ast.Attribute) and x.attr == 'data' and other in {m.id for m in ast.walk(x.value) if isinstance(m, ast.Name)}):
+                        continue
+                    holder = norm_text(x.value)
+                    if holder == other:
+                        if same_frames:
+                            guarded += 1
+                        else:
+                            raw_unguarded.append(pth.ret_line)
+                    elif holder == '%s.copy().changeFrame(self.frame_applied)' % other:
+                        reconciled += 1
+                    elif holder == '%s.changeFrame(self.frame_applied)' % other:
+                        mutated.append(pth.ret_line)
+                    elif holder.startswith('%s.copy().changeFrame(' % other) or holder.startswith('%s.changeFrame(' % other):
+                        wrong_target.append((pth.ret_line, holder))
+                    else:
+                        strange.append(holder)
+                if isinstance(rt, ast.Call) and isinstance(rt.func, ast.Name) and rt.func.id in ('Screw', 'Wrench') and len(rt.args) >= 2 \
+                        and any(isinstance(x, ast.Attribute) and x.attr == 'data' for x in ast.walk(rt.args[0])) and other in pth.ret:
+                    labels.append((norm_text(rt.args[1]), pth.ret_line))
+            n += reconciled + guarded
+            rep.ob('R12.4', fi, '%s: payload shapes recognised' % meth, not strange,
+                   'right operand payload read through an unrecognised expression: %s' % strange[:2], shape=True)
+            rep.ob('R12.4', fi, '%s: the right operand is converted as a copy' % meth, not mutated,
+                   'changeFrame is applied to %s itself (operand mutated)' % other, line=mutated[0] if mutated else None)
+            rep.ob('R12.4', fi, '%s: the right operand is converted into the left operand\'s frame' % meth, not wrong_target,
+                   'right operand converted by %s, not into self.frame_applied' % (wrong_target[0][1] if wrong_target else ''),
+                   line=wrong_target[0][0] if wrong_target else None)
+            rep.ob('R12.4', fi, '%s: operands in different frames are reconciled through changeFrame' % meth, not raw_unguarded,
+                   'on a path where the frames may differ the payload `%s.data` is combined directly: payloads of screws in different frames are '
+                   'combined without frame reconciliation (Wrench inherits %s and changes frame with the dual rule, so no inline rule is right '
+                   'for both)' % (other, meth), line=raw_unguarded[0] if raw_unguarded else None)
+            rep.ob('R12.4', fi, '%s: a converting path exists' % meth, reconciled > 0 or bool(mutated) or bool(wrong_target) or bool(raw_unguarded),
+                   'no path of %s re-expresses the right operand: payloads of screws in different frames are combined without frame reconciliation' % meth)
+            for fr, ln in labels:
+                rep.ob('R12.4', fi, '%s: result frame' % meth, fr in ('self.frame_applied', 'self.frame_applied.copy()'),
+                       'result is labelled with frame %s, not the left operand\'s' % fr, line=ln)
         rep.floor('R12.4', 'frame reconciliation sites', n, 6)
         wc = self.wrench.methods.get('_wrenchConverter')
         if wc is not None:
